@@ -5,7 +5,6 @@ Theorems about `Uniflow.Stream` (model of pkg/store/stream.go and the watcher pl
 pkg/store/store.go). Filter matching and acceptance by the segment are parameters of the `doc`
 operation (they are C10's and C12's subject).
 -/
-import Uniflow.Generated.Locks
 import Uniflow.Model.Stream
 
 namespace Uniflow.Stream
@@ -593,20 +592,4 @@ theorem C13.events_exact_nonvacuous :
     expected 1 h false false = [⟨10, 0⟩, ⟨12, 1⟩, ⟨13, 2⟩] ∧ expected 2 h false false = [⟨12, 1⟩] ∧
     (findW 1 (run {} h).streams).map (·.delivered) = some [⟨10, 0⟩] ∧
     (findW 2 (run {} h).streams).map (·.exited) = some true := by
-  decide
-
-/-! ## Step granularity tied to the source
-
-`Emit` and `Close` of a stream are one critical section each under `stream.mu` (that mutual
-exclusion is what makes the send on `in` safe), and every store mutation runs under one
-acquisition of `store.mu` (so `emit` happens inside the mutation's critical section). -/
-open Uniflow.Generated.Locks in
-theorem C13.atomic_sections :
-    acquireSites.contains ("store.stream", "Emit", "mu", 1) = true ∧
-    acquireSites.contains ("store.stream", "Close", "mu", 1) = true ∧
-    acquireSites.contains ("store.store", "Insert", "mu", 1) = true ∧
-    acquireSites.contains ("store.store", "Update", "mu", 1) = true ∧
-    acquireSites.contains ("store.store", "Delete", "mu", 1) = true ∧
-    (calls.filter (fun c => c.typ == "store.store" && c.callee == "store.stream.Emit")).all
-      (fun c => c.held.contains "store.store.mu") = true := by
   decide
